@@ -216,6 +216,11 @@ Qed.
 Theorem histogram_key_fields : hist_key_fields = [1; 2; 3; 4; 5].
 Proof. vm_compute. reflexivity. Qed.
 
+(* the recompute test of FloodFillSubsetState's private cache, in the current source: parameters, and the identity of the very
+   array data[att] evaluates to now (a derived or linked attribute yields a new array whenever it is read, so it is recomputed) *)
+Theorem floodfill_recompute_test : floodfill_key = 1.
+Proof. vm_compute. reflexivity. Qed.
+
 (* ---------- fresh evaluation is C01's elementwise evaluation when no part raises ---------- *)
 Lemma fold_lift_some : forall (lt : nat -> mask) lm l acc,
   (forall n, lm n = Some (lt n)) ->
